@@ -51,13 +51,57 @@ def main(argv=None):
     try:
         mod = dispatch(prop)
         if a.replay:
+            import json
+            with open(a.replay) as f:
+                kind = (json.load(f).get('signature') or {}).get('kind')
+            if kind == 'library-exception':
+                # the input is whatever the check was feeding: run the check again
+                a.replay = None
+                return mod.check(prop, a.tier, a.seed)
             return mod.replay(prop, a.replay)
         return mod.check(prop, a.tier, a.seed)
     except MachineryFailure as e:
         return machinery_failure(prop, str(e))
-    except Exception:
+    except Exception as e:
         traceback.print_exc()
+        where = raised_in_implementation(e)
+        if where and not a.replay:
+            # The harness only feeds inputs of the property's domain, and on a tree
+            # where the property holds none of them makes the library raise (each
+            # check catches the exceptions the property allows).  An exception that
+            # escapes from a frame of the library itself is therefore a failure of
+            # the library on such an input, not of the machinery.
+            from vv.verdict import Report
+            rep = Report(prop, a.tier, a.seed)
+            rep.rule = 'aborted: the library raised on an in-domain input'
+            text = ''.join(traceback.format_exception(type(e), e, e.__traceback__))
+            rep.violation({'kind': 'library-exception', 'where': where,
+                           'type': type(e).__name__},
+                          'the library raised %s: %s in %s on an input of the property\'s '
+                          'domain' % (type(e).__name__, str(e)[:200], where),
+                          {'traceback': text[-6000:]})
+            return rep.finish()
         return machinery_failure(prop, 'unexpected exception in the harness')
+
+
+def raised_in_implementation(e):
+    """'file:function' of the innermost frame if it belongs to the library under
+    test (following the cause/context chain to the original exception), else None."""
+    import vivarium
+    root = os.path.dirname(os.path.abspath(vivarium.__file__)) + os.sep
+    seen = set()
+    while e is not None and id(e) not in seen:
+        seen.add(id(e))
+        last = e
+        e = e.__cause__ or e.__context__
+    frames = traceback.extract_tb(last.__traceback__)
+    if not frames:
+        return None
+    fr = frames[-1]
+    if os.path.abspath(fr.filename).startswith(root):
+        return '%s:%s' % (os.path.relpath(fr.filename, os.path.dirname(root.rstrip(os.sep))),
+                          fr.name)
+    return None
 
 
 if __name__ == '__main__':
